@@ -19,51 +19,51 @@
 (***************************************************************************)
 EXTENDS NameWire
 
-F(n) == [t |-> "F", n |-> n]
-N  == [t |-> "N", n |-> 0]
-S  == [t |-> "S", n |-> 0]
-R  == [t |-> "R", n |-> 0]
-SS == [t |-> "SS", n |-> 0]
-TLV == [t |-> "TLV", n |-> 0]
-TLVI == [t |-> "TLVI", n |-> 0]
-NW == [t |-> "NW", n |-> 0]
-GW == [t |-> "GW", n |-> 0]
+Fx(n) == [t |-> "F", n |-> n]
+Nm == [t |-> "N", n |-> 0]
+Cs == [t |-> "S", n |-> 0]
+Rst == [t |-> "R", n |-> 0]
+Css == [t |-> "SS", n |-> 0]
+Tlv == [t |-> "TLV", n |-> 0]
+Tlvi == [t |-> "TLVI", n |-> 0]
+Nw == [t |-> "NW", n |-> 0]
+Gw == [t |-> "GW", n |-> 0]
 
 NameOnlyTypes == {2, 3, 4, 5, 7, 8, 9, 12, 23}   \* NS MD MF CNAME MB MG MR PTR NSAP-PTR
 
 Schema(t) ==
-  CASE t = 1 -> <<F(4)>>                                                  \* A        RFC 1035
-    [] t \in NameOnlyTypes -> <<N>>
-    [] t = 6 -> <<N, N, F(4), F(4), F(4), F(4), F(4)>>                    \* SOA      RFC 1035
-    [] t = 11 -> <<F(4), F(1), R>>                                        \* WKS      RFC 1035
-    [] t = 13 -> <<S, S>>                                                 \* HINFO    RFC 1035
-    [] t = 14 -> <<N, N>>                                                 \* MINFO    RFC 1035
-    [] t = 15 -> <<F(2), N>>                                              \* MX       RFC 1035
-    [] t = 16 -> <<SS>>                                                   \* TXT      RFC 1035
-    [] t = 17 -> <<N, N>>                                                 \* RP       RFC 1183
-    [] t = 18 -> <<F(2), N>>                                              \* AFSDB    RFC 1183
-    [] t = 20 -> <<S, S>>                                                 \* ISDN     RFC 1183 (crate: both strings)
-    [] t = 21 -> <<F(2), N>>                                              \* RT       RFC 1183
-    [] t = 22 -> <<F(1), F(2), F(1), F(3), F(2), F(2), F(2), F(6), F(1)>> \* NSAP     RFC 1706 (fixed GOSIP layout)
-    [] t = 28 -> <<F(16)>>                                                \* AAAA     RFC 3596
-    [] t = 29 -> <<F(1), F(1), F(1), F(1), F(4), F(4), F(4)>>             \* LOC      RFC 1876
-    [] t = 33 -> <<F(2), F(2), F(2), N>>                                  \* SRV      RFC 2782
-    [] t = 35 -> <<F(2), F(2), S, S, S, N>>                               \* NAPTR    RFC 3403
-    [] t = 36 -> <<F(2), N>>                                              \* KX       RFC 2230
-    [] t = 37 -> <<F(2), F(2), F(1), R>>                                  \* CERT     RFC 4398
-    [] t = 41 -> <<TLV>>                                                  \* OPT      RFC 6891
-    [] t = 43 -> <<F(2), F(1), F(1), R>>                                  \* DS       RFC 4034
-    [] t = 45 -> <<F(1), F(1), F(1), GW, R>>                              \* IPSECKEY RFC 4025
-    [] t = 46 -> <<F(2), F(1), F(1), F(4), F(4), F(4), F(2), N, R>>       \* RRSIG    RFC 4034
-    [] t = 47 -> <<N, NW>>                                                \* NSEC     RFC 4034
-    [] t = 48 -> <<F(2), F(1), F(1), R>>                                  \* DNSKEY   RFC 4034
-    [] t = 49 -> <<F(2), F(1), R>>                                        \* DHCID    RFC 4701
-    [] t = 63 -> <<F(4), F(1), F(1), R>>                                  \* ZONEMD   RFC 8976
-    [] t \in {64, 65} -> <<F(2), N, TLVI>>                                \* SVCB/HTTPS RFC 9460
-    [] t = 108 -> <<F(6)>>                                                \* EUI48    RFC 7043
-    [] t = 109 -> <<F(8)>>                                                \* EUI64    RFC 7043
-    [] t = 257 -> <<F(1), S, R>>                                          \* CAA      RFC 8659
-    [] OTHER -> <<R>>                                                     \* NULL / unknown: RFC 1035 / 3597
+  CASE t = 1 -> <<Fx(4)>>                                                  \* A        RFC 1035
+    [] t \in NameOnlyTypes -> <<Nm>>
+    [] t = 6 -> <<Nm, Nm, Fx(4), Fx(4), Fx(4), Fx(4), Fx(4)>>                    \* SOA      RFC 1035
+    [] t = 11 -> <<Fx(4), Fx(1), Rst>>                                        \* WKS      RFC 1035
+    [] t = 13 -> <<Cs, Cs>>                                                 \* HINFO    RFC 1035
+    [] t = 14 -> <<Nm, Nm>>                                                 \* MINFO    RFC 1035
+    [] t = 15 -> <<Fx(2), Nm>>                                              \* MX       RFC 1035
+    [] t = 16 -> <<Css>>                                                   \* TXT      RFC 1035
+    [] t = 17 -> <<Nm, Nm>>                                                 \* RP       RFC 1183
+    [] t = 18 -> <<Fx(2), Nm>>                                              \* AFSDB    RFC 1183
+    [] t = 20 -> <<Cs, Cs>>                                                 \* ISDN     RFC 1183 (crate: both strings)
+    [] t = 21 -> <<Fx(2), Nm>>                                              \* RT       RFC 1183
+    [] t = 22 -> <<Fx(1), Fx(2), Fx(1), Fx(3), Fx(2), Fx(2), Fx(2), Fx(6), Fx(1)>> \* NSAP     RFC 1706 (fixed GOSIP layout)
+    [] t = 28 -> <<Fx(16)>>                                                \* AAAA     RFC 3596
+    [] t = 29 -> <<Fx(1), Fx(1), Fx(1), Fx(1), Fx(4), Fx(4), Fx(4)>>             \* LOC      RFC 1876
+    [] t = 33 -> <<Fx(2), Fx(2), Fx(2), Nm>>                                  \* SRV      RFC 2782
+    [] t = 35 -> <<Fx(2), Fx(2), Cs, Cs, Cs, Nm>>                               \* NAPTR    RFC 3403
+    [] t = 36 -> <<Fx(2), Nm>>                                              \* KX       RFC 2230
+    [] t = 37 -> <<Fx(2), Fx(2), Fx(1), Rst>>                                  \* CERT     RFC 4398
+    [] t = 41 -> <<Tlv>>                                                  \* OPT      RFC 6891
+    [] t = 43 -> <<Fx(2), Fx(1), Fx(1), Rst>>                                  \* DS       RFC 4034
+    [] t = 45 -> <<Fx(1), Fx(1), Fx(1), Gw, Rst>>                              \* IPSECKEY RFC 4025
+    [] t = 46 -> <<Fx(2), Fx(1), Fx(1), Fx(4), Fx(4), Fx(4), Fx(2), Nm, Rst>>       \* RRSIG    RFC 4034
+    [] t = 47 -> <<Nm, Nw>>                                                \* NSEC     RFC 4034
+    [] t = 48 -> <<Fx(2), Fx(1), Fx(1), Rst>>                                  \* DNSKEY   RFC 4034
+    [] t = 49 -> <<Fx(2), Fx(1), Rst>>                                        \* DHCID    RFC 4701
+    [] t = 63 -> <<Fx(4), Fx(1), Fx(1), Rst>>                                  \* ZONEMD   RFC 8976
+    [] t \in {64, 65} -> <<Fx(2), Nm, Tlvi>>                                \* SVCB/HTTPS RFC 9460
+    [] t = 108 -> <<Fx(6)>>                                                \* EUI48    RFC 7043
+    [] t = 109 -> <<Fx(8)>>                                                \* EUI64    RFC 7043
+    [] t = 257 -> <<Fx(1), Cs, Rst>>                                          \* CAA      RFC 8659
+    [] OTHER -> <<Rst>>                                                     \* NULL / unknown: RFC 1035 / 3597
 
 TypedTypes == {1, 6, 11, 13, 14, 15, 16, 17, 18, 20, 21, 22, 28, 29, 33, 35, 36, 37, 41, 43, 45, 46, 47, 48, 49,
                63, 64, 65, 108, 109, 257} \cup NameOnlyTypes
